@@ -19,7 +19,8 @@ RULE = ('case = (operator program of assign/filter operators from the C08 gramma
         'named_transforms() | k = 1..6 shards (incl. k > n) whose states are merged | run_pipeline_interleaved in process); oracle = '
         'differential against the sequential single-stage run of the same case: equal multiset of emitted records and equal '
         'aggregate, exactly one AggregateResult for the interleaved runner; non-trivial = threads >= 2 or stages >= 2 or shards >= 2 '
-        'with >= 3 records; distinct = distinct canonical case JSON')
+        'with >= 3 records; distinct = distinct canonical case JSON'
+        '; also: sources as merged sequences with boundaries at shard ends, shard states merged from a one-shot stream, stage-by-stage manual runs, interleaved runs with aggregate_only')
 ASSUMPTIONS = [
     'threaded variants run under vlib/dsched.py (same trusted base as C04); the interleaved runner uses real threads with a watchdog',
     'the aggregate is exact (integer sum / row count) so merged shard states must reproduce it exactly',
